@@ -2,7 +2,7 @@
    Model-level characterisations; spec_C13 states all operations (child_nodes, modifier filter,
    unions, category counts, aggregated IC) against the observation and is evaluated on the crate. *)
 From Coq Require Import Sorted.
-From HpoV Require Import Model.Base Model.Group Model.Onto Model.Query Model.HSet Proofs.C13P Proofs.C13U Proofs.ClosureP Proofs.C13T.
+From HpoV Require Import Model.Base Model.Group Model.Onto Model.Query Model.HSet Proofs.C13P Proofs.C13U Proofs.ClosureP Proofs.C13T Model.Dump Run.World Run.C13 Spec.Sets Proofs.C13S.
 
 Theorem C13_without_obsolete : forall o s r, hs_without_obsolete o s = Ok r ->
   StronglySorted N.lt r /\
@@ -63,6 +63,31 @@ Theorem C13_operations_return : forall o, wf_ar (o_arena o) -> forall s, (forall
   (forall k, exists r, hs_annot_ids k o s = Ok r) /\ (exists r, hs_categories o s = Ok r).
 Proof. exact hs_operations_return. Qed.
 
+(* SOUNDNESS OF THE EXECUTABLE STATEMENT: what an observation accepted by spec_C13 says, set by set *)
+Theorem C13_accepted_observation_means : forall i d rs, spec_C13 i (Ok (d, rs)) = true ->
+  let '((_, tbl), sets) := i in
+  length sets = length rs /\
+  forall s0 r, In (s0, r) (combine sets rs) ->
+  exists a b b' c c' e e' g m rr cats ic after,
+    r = Ok (a, b, b', c, c', e, e', g, m, rr, cats, ic, after) /\
+    let ts := members d s0 in
+    (* every member occurs in the dump *)
+    length ts = length (set_of s0) /\
+    (* child_nodes *)
+    (forall x, In x a <-> In x (set_of s0) /\ forall t, In t ts -> ~ In x (d_allp t)) /\
+    (* modifier filter, obsolete filter: copying and in place *)
+    (forall x, In x b <-> exists t, In t ts /\ d_id t = x /\ d_ismod t = 0) /\ b' = b /\
+    (forall x, In x c <-> exists t, In t ts /\ d_id t = x /\ d_obsolete t = 0) /\ c' = c /\
+    (* replacements *)
+    (forall x, In x e <-> exists t, In t ts /\ x = match d_repl t with r0 :: _ => r0 | [] => d_id t end) /\ e' = e /\
+    (* unions *)
+    (forall x, In x g <-> exists t, In t ts /\ In x (d_genes t)) /\
+    (forall x, In x m <-> exists t, In t ts /\ In x (d_omim t)) /\
+    (forall x, In x rr <-> exists t, In t ts /\ In x (d_orpha t)) /\
+    (* the sets changed in place were asked again: three follow-up observations *)
+    length after = 3%nat.
+Proof. exact spec_C13_sound. Qed.
+
 Print Assumptions C13_without_obsolete.
 Print Assumptions C13_with_replaced_obsolete.
 Print Assumptions C13_in_place_equals_copying.
@@ -72,3 +97,4 @@ Print Assumptions C13_annotation_ids_are_the_union.
 Print Assumptions C13_information_content_of_the_union.
 Print Assumptions C13_category_counts.
 Print Assumptions C13_operations_return.
+Print Assumptions C13_accepted_observation_means.
